@@ -54,6 +54,13 @@ func genText(t *rapid.T, label string) string {
 	}
 }
 
+// rare is true with a probability of roughly 1/n. rapid's integer draws favour the ends of a
+// range (0 and 1 most of all), so the rare outcome sits where the distribution is thinnest and
+// shrinking (towards 0) removes it.
+func rare(t *rapid.T, n int, label string) bool {
+	return rapid.IntRange(0, n-1).Draw(t, label) == n-2
+}
+
 func genEsc(t *rapid.T) int {
 	return rapid.SampledFrom([]int{0, 0, 0, 1, 2}).Draw(t, "esc")
 }
@@ -94,7 +101,7 @@ var bigInts = []string{
 func genNumber(t *rapid.T) (jNum, string) {
 	switch rapid.IntRange(0, 9).Draw(t, "num-kind") {
 	case 0, 1, 2:
-		return jNum(strconv.FormatInt(rapid.Int64Range(-1000, 100000).Draw(t, "small")), "small-int")
+		return jNum(strconv.FormatInt(rapid.Int64Range(-1000, 100000).Draw(t, "small"), 10)), "small-int"
 	case 3, 4:
 		if rapid.Bool().Draw(t, "big-fixed") {
 			return jNum(rapid.SampledFrom(bigInts).Draw(t, "big")), "big-int"
@@ -177,12 +184,12 @@ func genObject(t *rapid.T, depth int, minKeys int) *jObj {
 // genInput is a tool_use input: a JSON object, nesting depth <= 4.
 func genInput(t *rapid.T) *jObj {
 	switch rapid.IntRange(0, 9).Draw(t, "input-kind") {
-	case 0:
+	case 7:
 		return &jObj{}
-	case 1:
+	case 0:
 		// the archetypal flat call
 		return obj("location", genStr(t, "loc"), "unit", "celsius")
-	case 2:
+	case 3:
 		// a single large identifier, as database / snowflake ids are
 		n, _ := genNumber(t)
 		return obj("id", jNum(rapid.SampledFrom(bigInts).Draw(t, "id")), "n", n)
@@ -215,7 +222,7 @@ func genPropSchema(t *rapid.T, depth int) *jObj {
 		o = obj("type", "integer")
 		if rapid.Bool().Draw(t, "bounds") {
 			o.set("minimum", jNum(strconv.Itoa(rapid.IntRange(-10, 10).Draw(t, "min"))))
-			if rapid.IntRange(0, 7).Draw(t, "int64max") == 0 {
+			if rare(t, 8, "int64max") {
 				o.set("maximum", jNum(rapid.SampledFrom([]string{"9223372036854775807", "9007199254740993"}).Draw(t, "max-big")))
 			} else {
 				o.set("maximum", jNum(strconv.Itoa(rapid.IntRange(11, 100000).Draw(t, "max"))))
@@ -248,7 +255,7 @@ func genPropSchema(t *rapid.T, depth int) *jObj {
 
 func genSchema(t *rapid.T, depth int) *jObj {
 	o := obj("type", "object")
-	if rapid.IntRange(0, 7).Draw(t, "bare") == 0 {
+	if rare(t, 8, "bare") {
 		return o
 	}
 	n := rapid.IntRange(0, 3).Draw(t, "props")
@@ -307,9 +314,9 @@ func (g *genState) toolName(t *rapid.T) string {
 
 func maybeCache(t *rapid.T, o *jObj) *jObj {
 	switch rapid.IntRange(0, 9).Draw(t, "block-extra") {
-	case 0:
+	case 6:
 		o.set("cache_control", obj("type", "ephemeral"))
-	case 1:
+	case 7:
 		o.set("cache_control", obj("type", "ephemeral", "ttl", "1h"))
 	}
 	return o
@@ -317,7 +324,7 @@ func maybeCache(t *rapid.T, o *jObj) *jObj {
 
 // shuffleKeys occasionally reorders the members of a block (JSON objects are unordered).
 func shuffleKeys(t *rapid.T, o *jObj) *jObj {
-	if rapid.IntRange(0, 4).Draw(t, "shuffle-keys") == 0 {
+	if rapid.IntRange(0, 4).Draw(t, "shuffle-keys") == 3 {
 		o.kv = rapid.Permutation(o.kv).Draw(t, "key-order")
 	}
 	return o
@@ -342,14 +349,14 @@ func (g *genState) toolUseBlock(t *rapid.T) (*jObj, string) {
 
 func toolResultBlock(t *rapid.T, id string) *jObj {
 	b := obj("type", "tool_result", "tool_use_id", id)
-	switch rapid.IntRange(0, 9).Draw(t, "result-content") {
-	case 0:
+	switch rapid.IntRange(0, 11).Draw(t, "result-content") {
+	case 7:
 		// content absent
-	case 1:
+	case 8:
 		b.set("content", str(""))
-	case 2, 3, 4, 5:
+	case 0, 1, 2, 3:
 		b.set("content", genStr(t, "result"))
-	case 6:
+	case 4:
 		// a result that is itself JSON text, as most tools return
 		b.set("content", jStr{s: render(genObject(t, 1, 1), 0), esc: genEsc(t)})
 	default:
@@ -376,7 +383,7 @@ func toolResultBlock(t *rapid.T, id string) *jObj {
 func (g *genState) userBlocks(t *rapid.T) jArr {
 	var results []jv
 	ids := g.pending
-	if len(ids) == 0 && rapid.IntRange(0, 5).Draw(t, "stray-results") == 0 {
+	if len(ids) == 0 && rare(t, 6, "stray-results") {
 		// results whose calls were trimmed from the history
 		for i := rapid.IntRange(1, 2).Draw(t, "n-stray"); i > 0; i-- {
 			ids = append(ids, g.newToolID(t))
@@ -465,7 +472,7 @@ func (g *genState) assistantBlocks(t *rapid.T) (jArr, []string) {
 			}
 		}
 	}
-	if rapid.IntRange(0, 9).Draw(t, "thinking-block") == 0 {
+	if rare(t, 10, "thinking-block") {
 		th := obj("type", "thinking", "thinking", genStr(t, "thinking"), "signature", "EuYBCkQYAiJA")
 		blocks = append([]jv{th}, blocks...)
 	}
@@ -509,15 +516,15 @@ func genRequest(t *rapid.T) *jObj {
 		}
 		g.tools = append(g.tools, name)
 		tool := obj("name", name)
-		switch rapid.IntRange(0, 5).Draw(t, "tool-desc") {
-		case 0:
-		case 1:
+		switch rapid.IntRange(0, 7).Draw(t, "tool-desc") {
+		case 5:
+		case 6:
 			tool.set("description", str(""))
 		default:
 			tool.set("description", genStr(t, "tool-desc-text"))
 		}
 		tool.set("input_schema", genSchema(t, 2))
-		if rapid.IntRange(0, 24).Draw(t, "tool-extra") == 0 {
+		if rare(t, 25, "tool-extra") {
 			// fields of the Anthropic tool object beyond name/description/input_schema
 			if rapid.Bool().Draw(t, "tool-extra-kind") {
 				tool.set("cache_control", obj("type", "ephemeral"))
@@ -532,11 +539,11 @@ func genRequest(t *rapid.T) *jObj {
 	req.set("max_tokens", jNum(strconv.FormatInt(rapid.SampledFrom([]int64{1, 16, 256, 1024, 4096, 8192, 32000, 200000, 2147483647, 1 << 40}).Draw(t, "max_tokens"), 10)))
 
 	// system
-	switch rapid.IntRange(0, 7).Draw(t, "system-form") {
-	case 0, 1:
-	case 2, 3:
+	switch rapid.IntRange(0, 11).Draw(t, "system-form") {
+	case 0, 2:
+	case 1, 3, 4:
 		req.set("system", genStr(t, "system"))
-	case 4:
+	case 9:
 		req.set("system", str(""))
 	default:
 		n := rapid.IntRange(1, 3).Draw(t, "system-blocks")
@@ -549,7 +556,7 @@ func genRequest(t *rapid.T) *jObj {
 
 	// messages
 	nMsg := rapid.IntRange(1, 8).Draw(t, "n-messages")
-	alternate := rapid.IntRange(0, 5).Draw(t, "alternate") != 0
+	alternate := !rare(t, 6, "free-roles")
 	msgs := jArr{}
 	for i := 0; i < nMsg; i++ {
 		role := "user"
@@ -567,7 +574,7 @@ func genRequest(t *rapid.T) *jObj {
 		}
 		switch {
 		case asString:
-			if rapid.IntRange(0, 19).Draw(t, "empty-content") == 0 {
+			if rare(t, 20, "empty-content") {
 				m.set("content", str(""))
 			} else {
 				m.set("content", genStr(t, "content"))
@@ -581,7 +588,7 @@ func genRequest(t *rapid.T) *jObj {
 			m.set("content", blocks)
 			g.pending = ids
 		}
-		if rapid.IntRange(0, 5).Draw(t, "role-last") == 0 {
+		if rapid.IntRange(0, 5).Draw(t, "role-last") == 4 {
 			m.kv[0], m.kv[1] = m.kv[1], m.kv[0]
 		}
 		msgs = append(msgs, m)
@@ -641,10 +648,10 @@ func genRequest(t *rapid.T) *jObj {
 	if rapid.IntRange(0, 3).Draw(t, "metadata") == 0 {
 		req.set("metadata", obj("user_id", genStr(t, "user_id")))
 	}
-	if rapid.IntRange(0, 9).Draw(t, "thinking") == 0 {
+	if rare(t, 10, "thinking") {
 		req.set("thinking", obj("type", "enabled", "budget_tokens", 2048))
 	}
-	if rapid.IntRange(0, 14).Draw(t, "unknown-top") == 0 {
+	if rare(t, 15, "unknown-top") {
 		switch rapid.IntRange(0, 2).Draw(t, "unknown-top-kind") {
 		case 0:
 			req.set("service_tier", str("auto"))
@@ -669,15 +676,15 @@ func genValidCase(t *rapid.T) Case {
 // ---------------------------------------------------------------------------
 // invalid requests: one defect applied to an otherwise valid request
 
+// (rapid favours the front of a list: the kinds with the most variety come first)
 var invalidKinds = []string{
-	"model-missing", "model-empty", "model-not-string",
-	"messages-empty", "messages-missing", "messages-null",
+	"wrong-type-typed-field", "malformed-truncated", "malformed-syntax",
+	"temperature-above-2", "temperature-negative", "top_p-above-1", "top_p-negative", "top_k-negative",
 	"max_tokens-zero", "max_tokens-negative", "max_tokens-missing",
-	"temperature-above-2", "temperature-negative",
-	"top_p-above-1", "top_p-negative",
-	"top_k-negative",
-	"malformed-truncated", "malformed-syntax", "malformed-empty-body", "malformed-not-object", "malformed-trailing-data",
-	"wrong-type-typed-field", "wrong-type-typed-field", "wrong-type-system", "wrong-type-tool_choice", "wrong-type-content",
+	"messages-empty", "messages-missing", "messages-null",
+	"wrong-type-content", "wrong-type-content-block", "wrong-type-system", "wrong-type-tool_choice",
+	"malformed-trailing-data", "malformed-not-object",
+	"model-missing", "model-empty", "malformed-empty-body", "model-not-string", "wrong-type-typed-field",
 }
 
 func genInvalidCase(t *rapid.T) Case {
@@ -787,7 +794,12 @@ func genInvalidCase(t *rapid.T) Case {
 	case "wrong-type-content":
 		msgs := getKey(req, "messages").(jArr)
 		i := rapid.IntRange(0, len(msgs)-1).Draw(t, "which-message")
-		msgs[i].(*jObj).set("content", rapid.SampledFrom([]jv{jNum("42"), jBool(true), jNull{}, jArr{str("plain string in block list")}, jArr{jNum("1")}}).Draw(t, "content-v"))
+		msgs[i].(*jObj).set("content", rapid.SampledFrom([]jv{jNum("42"), jBool(true), jNull{}, jNum("0.5")}).Draw(t, "content-v"))
+	case "wrong-type-content-block":
+		// a block list whose elements are not objects
+		msgs := getKey(req, "messages").(jArr)
+		i := rapid.IntRange(0, len(msgs)-1).Draw(t, "which-message")
+		msgs[i].(*jObj).set("content", rapid.SampledFrom([]jv{jArr{str("plain string in block list")}, jArr{jNum("1")}, jArr{jNull{}}, jArr{jArr{}}}).Draw(t, "content-v"))
 	}
 	c.Body = render(req, 0)
 	return c
